@@ -407,10 +407,24 @@ def guarded(rep, name, config, fn, thunk):
 
 _TASKS = []
 _REP = None
+class TaskBudget(ir.Unsupported): pass
+def _alarm(signum, frame): raise TaskBudget("harness exceeded its wall-clock budget (VERIF_TASK_TIMEOUT)")
 def _worker(i):
+    """one harness in a forked worker: address-space limit and wall-clock budget, so that a harness that explodes on a changed tree ends as
+    'inconclusive' (exit 2) instead of exhausting the machine"""
+    import signal, resource
     rep = _REP
     n0 = len(rep.items)
-    guarded(rep, "task#%d" % i, "?", "?", _TASKS[i])
+    try:
+        lim = int(os.environ.get("VERIF_TASK_MEM_GB", "12")) << 30
+        resource.setrlimit(resource.RLIMIT_AS, (lim, lim))
+    except Exception: pass
+    signal.signal(signal.SIGALRM, _alarm); signal.alarm(int(os.environ.get("VERIF_TASK_TIMEOUT", "1500")))
+    try:
+        try: guarded(rep, "task#%d" % i, "?", "?", _TASKS[i])
+        except MemoryError:
+            rep.add(harness="task#%d" % i, config="?", function="?", status="inconclusive", why="harness exceeded its memory budget (VERIF_TASK_MEM_GB)", goals=[], wall_s=0)
+    finally: signal.alarm(0)
     return rep.items[n0:], dict(smt.STATS)
 
 def run_tasks(tasks, rep, jobs=None):
